@@ -1750,4 +1750,16 @@ theorem removeLight_ok (s : St) (k : Nat) (h : Inv s) (hk : k ∈ s.net.lights) 
 theorem removeInter_ok (s : St) (i : Inter) (h : Inv s) (hi : i ∈ s.net.inters) : (removeInter s i).2 = .ok := by
   unfold removeInter; rw [h.find_inter hi]; exact removeInterBody_ok s i h hi
 
+theorem forEach_append {α : Type} (f : St → α → St × Out) : ∀ (as bs : List α) (s : St),
+    forEach f s (as ++ bs) = andThen (forEach f s as) (fun s1 => forEach f s1 bs)
+  | [], bs, s => rfl
+  | a :: as, bs, s => by
+    show andThen (f s a) (fun s1 => forEach f s1 (as ++ bs)) = andThen (andThen (f s a) (fun s1 => forEach f s1 as)) _
+    obtain ⟨s1, o⟩ := f s a
+    cases o with
+    | ok => exact forEach_append f as bs s1
+    | err e => rfl
+    | id n => rfl
+
+
 end CR.IdPool
